@@ -585,6 +585,8 @@ class Interp:
             x, y = a(0), a(1); used("min(unsigned)"); return ("val", z3.If(z3.ULE(x, y), x, y))
         if re.search(r"NonZero::new$", c) or re.search(r"NonZero<\w+>::new$", c): v = a(0); used("NonZero::new"); return ("val", Enum("Option", z3.If(v != 0, BV(64, 1), BV(64, 0)), {1: [v]}))
         if re.search(r"NonZero(<\w+>)?::get$", c): used("NonZero::get"); return ("val", a(0))
+        if re.search(r"<impl bool>::then_some$", c):
+            cnd, v = a(0), a(1); used("bool::then_some"); return ("val", Enum("Option", z3.If(cnd, BV(64, 1), BV(64, 0)), {1: [v]}))
         if re.search(r"<impl u(\d+|size)>::is_power_of_two$", c): v = a(0); used("is_power_of_two"); return ("val", z3.And(v != 0, (v & (v - 1)) == 0))
         # ---- slices / pointers
         if re.search(r"<impl \[.*\]>::get_unchecked(_mut)?$", c):
@@ -623,7 +625,11 @@ class Interp:
         # ---- logging is off (no logger is installed by the library: log::max_level() == Off), sleeping has no effect on shared state
         if re.match(r"^<Level as PartialOrd<LevelFilter>>::le$", c): used("log level test -> false (no logger installed: log::max_level() is Off)"); return ("val", z3.BoolVal(False))
         if c.endswith("Duration::from_millis") or c.endswith("Duration::from_secs"): return ("val", ("opaque-const", "duration"))
-        if c in ("std::thread::sleep", "thread::sleep", "sleep"): used("thread::sleep -> no effect"); return ("val", UNIT)
+        if c in ("std::thread::sleep", "thread::sleep", "sleep"):
+            if self.cfg.get("sleep_is_unreachable"):
+                used("thread::sleep -> path assumed unreachable within the bounds (reported if the solver reaches it)")
+                return ("panic", "ASSUMED-UNREACHABLE: thread::sleep (sleep-and-retry path)")
+            used("thread::sleep -> no effect"); return ("val", UNIT)
         if re.match(r"^<std::slice::Iter<.*> as Iterator>::next$", callee, re.S):
             r_ = a(0)
             if not isinstance(r_, LRef): raise EncodingError("Iter::next needs a reference to a local iterator")
